@@ -26,17 +26,118 @@ import (
 )
 
 type vfFrameCase struct {
-	Op      string `json:"op"`
-	Max     uint32 `json:"max"` // 0 = the real limit
+	Op       string        `json:"op"`
+	Max      uint32        `json:"max"` // 0 = the real limit
+	Proto    uint32        `json:"proto"`
+	Ts       int64         `json:"ts"`
+	ID       string        `json:"id"`
+	Orig     string        `json:"orig"`
+	Payload  string        `json:"payload"`
+	DeclLen  int64         `json:"decl_len"` // -1: len(payload) through the real MessageValue
+	Stream   string        `json:"stream"`
+	Chunk    int           `json:"chunk"` // >0: the underlying reader returns at most that many bytes per Read
+	Avail    int           `json:"avail"`
+	Msgs     []vfStreamMsg `json:"msgs,omitempty"`     // op "stream": messages written to and read from ONE connection
+	Scribble bool          `json:"scribble,omitempty"` // op "stream": overwrite each delivered payload after the next read (a handler reusing it)
+}
+
+type vfStreamMsg struct {
 	Proto   uint32 `json:"proto"`
 	Ts      int64  `json:"ts"`
 	ID      string `json:"id"`
 	Orig    string `json:"orig"`
 	Payload string `json:"payload"`
-	DeclLen int64  `json:"decl_len"` // -1: len(payload) through the real MessageValue
-	Stream  string `json:"stream"`
-	Chunk   int    `json:"chunk"` // >0: the underlying reader returns at most that many bytes per Read
-	Avail   int    `json:"avail"`
+}
+
+type vfStreamObs struct {
+	Op     string        `json:"op"`
+	Err    string        `json:"err"`
+	Cls    int           `json:"cls"`
+	Wire   string        `json:"wire"`    // what the single writer put on the wire
+	AtRead []vfStreamMsg `json:"at_read"` // each message as seen immediately after its ReadMsg returned
+	Held   []vfStreamMsg `json:"held"`    // the same Message objects, looked at only after the whole stream was read
+	EndCls int           `json:"end_cls"` // class of the read that ended the loop (1 = clean header error / EOF)
+	Max    uint32        `json:"max"`
+}
+
+func vfSnap(m p2pcommon.Message) vfStreamMsg {
+	id, og := m.ID(), m.OriginalID()
+	return vfStreamMsg{Proto: m.Subprotocol().Uint32(), Ts: m.Timestamp(), ID: hex.EncodeToString(id[:]), Orig: hex.EncodeToString(og[:]),
+		Payload: hex.EncodeToString(m.Payload())}
+}
+
+// vfStream: one V030ReadWriter writes every message, another one reads the resulting byte stream to its
+// end.  The reader keeps every Message it was handed (as a peer's read loop hands them to asynchronous
+// handlers) and they are compared with what was written only after ALL frames have been read: a payload,
+// id array or header buffer shared between the messages of one connection shows up here and nowhere else.
+func vfStream(c *vfFrameCase) (o vfStreamObs) {
+	o.Op = "stream"
+	defer func() {
+		if r := recover(); r != nil {
+			o.Cls, o.Err = 4, fmt.Sprint("panic: ", r)
+		}
+	}()
+	var buf bytes.Buffer
+	wr := NewV030ReadWriter(bytes.NewReader(nil), &buf, nil)
+	for i := range c.Msgs {
+		x := &c.Msgs[i]
+		payload, _ := hex.DecodeString(x.Payload)
+		msg := p2pcommon.NewMessageValue(p2pcommon.SubProtocol(x.Proto), vfID(x.ID), vfID(x.Orig), x.Ts, payload)
+		if err := wr.WriteMsg(msg); err != nil {
+			o.Cls, o.Err = 3, err.Error()
+			return
+		}
+		// the caller reuses its buffer after WriteMsg returned: must not change what was written
+		for j := range payload {
+			payload[j] ^= 0xff
+		}
+	}
+	o.Wire = hex.EncodeToString(buf.Bytes())
+	var under io.Reader = bytes.NewReader(buf.Bytes())
+	if c.Chunk > 0 {
+		under = &vfChunkReader{under, c.Chunk}
+	}
+	rd := NewV030ReadWriter(bufio.NewReaderSize(under, 4096), io.Discard, nil)
+	var held []p2pcommon.Message
+	for {
+		m, err := rd.ReadMsg()
+		if err != nil {
+			switch {
+			case strings.Contains(err.Error(), "too big payload"):
+				o.EndCls = 2
+			case strings.HasPrefix(err.Error(), "failed to read paylod"):
+				o.EndCls = 3
+			default:
+				o.EndCls = 1
+			}
+			break
+		}
+		o.AtRead = append(o.AtRead, vfSnap(m))
+		held = append(held, m)
+	}
+	for _, m := range held {
+		o.Held = append(o.Held, vfSnap(m))
+	}
+	if c.Scribble {
+		// a handler that scribbles over the payload it was given must not affect the other messages
+		for i, m := range held {
+			p := m.Payload()
+			for j := range p {
+				p[j] = byte(i)
+			}
+		}
+		for i, m := range held {
+			s := vfSnap(m)
+			want := make([]byte, len(m.Payload()))
+			for j := range want {
+				want[j] = byte(i)
+			}
+			if s.Payload != hex.EncodeToString(want) {
+				o.Err = fmt.Sprintf("payload of held message %d changed when another message's payload was overwritten", i)
+			}
+		}
+	}
+	return
 }
 
 type vfFrameObs struct {
@@ -213,6 +314,13 @@ func TestVerifC18FrameEngine(t *testing.T) {
 			p2pcommon.MaxPayloadLength = c.Max
 		}
 		var o vfFrameObs
+		if c.Op == "stream" {
+			so := vfStream(&c)
+			so.Max = p2pcommon.MaxPayloadLength
+			b, _ := json.Marshal(so)
+			fmt.Fprintln(w, string(b))
+			continue
+		}
 		switch c.Op {
 		case "write":
 			o = vfWrite(&c)
